@@ -178,15 +178,24 @@ func seqProgram(r *ev.Run, id string, i int) {
 		msg := rng.Pick(g, msgs)
 		via := g.Intn(len(cores))
 		ent := zapcore.Entry{Level: lvl, Message: msg, Time: time.Unix(0, ts)}
-		trace = append(trace, fmt.Sprintf("#%d lvl=%d msg=%q ts=%d via=%d %s", k, lvl, msg, ts, via, place))
+		ets := ts
+		if g.P(1, 25) {
+			// an entry that carries no timestamp at all (the zero Time): still judged by what it carries,
+			// which lies before every window, never by the wall clock
+			ent.Time = time.Time{}
+			ets = ent.Time.UnixNano()
+			place += " zero-time"
+			r.Count("placement:zero-time-entry", 1)
+		}
+		trace = append(trace, fmt.Sprintf("#%d lvl=%d msg=%q ts=%d via=%d %s", k, lvl, msg, ets, via, place))
 		if lvl >= thr { // the model: disabled levels are skipped before counting
-			counted, admit := md.decide(lvl, msg, ts)
+			counted, admit := md.decide(lvl, msg, ets)
 			if counted {
 				d := zapcore.LogDropped
 				if admit {
 					d = zapcore.LogSampled
 				}
-				wantHooks = append(wantHooks, hookRec{msg, lvl, ts, d})
+				wantHooks = append(wantHooks, hookRec{msg, lvl, ets, d})
 				if w := md.state[key{lvl, fnv32a(msg) % 4096}]; w != nil {
 					lastEnd = w.end
 				}
